@@ -28,6 +28,19 @@ def load_catalogue():
     cat = {c[0]: {"prop": c[1], "file": c[2], "old": c[3], "new": c[4], "note": c[5]} for c in CANDIDATES}
     for f in FIXES:
         cat[f[0]] = {"prop": f[1], "file": f[2], "old": f[3], "new": f[4], "note": f[5]}
+    import glob
+    import importlib.util
+
+    for path in sorted(glob.glob(os.path.join(VERIF, "mutants", "extra_C*.py"))):
+        spec = importlib.util.spec_from_file_location(os.path.basename(path)[:-3], path)
+        mod = importlib.util.module_from_spec(spec)
+        try:
+            spec.loader.exec_module(mod)
+        except Exception as ex:  # a builder's file that is not plain data
+            print(f"(skipping {path}: {ex})", file=sys.stderr)
+            continue
+        for c in getattr(mod, "CANDIDATES", []):
+            cat.setdefault(c[0], {"prop": c[1], "file": c[2], "old": c[3], "new": c[4], "note": c[5]})
     return cat
 
 
@@ -96,7 +109,7 @@ def main():
                 line += f" | suite: {'PASS' if ok else 'FAIL'} ({summary})"
             for prop in props:
                 p = subprocess.run(
-                    [os.path.join(VERIF, "check"), prop, "--tier", a.tier],
+                    [os.path.join(VERIF, "check"), prop, "--tier", a.tier, "--jobs", os.environ.get("VERIF_JOBS", "4")],
                     capture_output=True, text=True, env={**os.environ, "VERIF_REPO": copy},
                 )
                 viol = [l for l in p.stdout.splitlines() if l.startswith("VIOLATION")]
